@@ -13,12 +13,29 @@ SLS = {  # option value -> (bmc, blc, ac, ineq)
     'based-on-source': (False, False, False, 0),
     'except-in-equations': (True, True, True, 2),
 }
-SLS_VALUES = [False, 'based-on-source', 'except-in-equations', True, None, 'macros']
+# custom policies given as a dictionary (missing keys default to False / None)
+SLS_DICTS = [
+    {'between-macro-and-chars': True},
+    {'between-latex-constructs': True, 'after-comment': True},
+    {'between-macro-and-chars': False, 'between-latex-constructs': True, 'in-equations': True},
+    {'after-comment': True, 'in-equations': 'based-on-source'},
+    {'between-macro-and-chars': True, 'between-latex-constructs': False, 'after-comment': True, 'in-equations': None},
+]
+SLS_VALUES = [False, 'based-on-source', 'except-in-equations', True, None, 'macros'] + SLS_DICTS
+
+
+def sls_tuple(v):
+    """option value -> (bmc, blc, ac, ineq) with ineq 0 = no swap inside equations, 1 = all strict, 2 = based-on-source"""
+    if isinstance(v, dict):
+        ie = v.get('in-equations')
+        return (bool(v.get('between-macro-and-chars', False)), bool(v.get('between-latex-constructs', False)),
+                bool(v.get('after-comment', False)), {None: 0, True: 1, 'based-on-source': 2}[ie])
+    return SLS[v]
 MATH_VALUES = ['text', 'with-delimiters', 'verbatim', 'remove']
 
 
 def w_opts(o):
-    sl = SLS[o.get('strict_latex_spaces', False)]
+    sl = sls_tuple(o.get('strict_latex_spaces', False))
     return ([MATH[o.get('math_mode', 'text')]] + w_bool(o.get('keep_comments', False))
             + w_bool(sl[0]) + w_bool(sl[1]) + w_bool(sl[2]) + [sl[3]]
             + w_bool(o.get('keep_braced_groups', False)) + [o.get('keep_braced_groups_minlen', 2)])
